@@ -75,7 +75,12 @@ type Report struct {
 	verifDir string
 	maxKeep  int
 	bailOnce sync.Once
+	// set when case lists were cut short because enough violations had been found
+	stoppedEarly atomic.Bool
 }
+
+// stopAfterViolations: remaining cases are skipped once this many violations were recorded.
+const stopAfterViolations = 12
 
 // KnownFinding is one line of KNOWN_FINDINGS.txt.
 type KnownFinding struct {
@@ -369,6 +374,12 @@ func (r *Report) Cases(group string, n int, workers int, fn func(c *Case)) {
 		only = v
 	}
 	run := func(i int) {
+		// Once the property is clearly violated there is no point in spending minutes (stuck
+		// verdicts cost seconds each) on collecting hundreds of further witnesses.
+		if only < 0 && r.NViolations() >= stopAfterViolations {
+			r.stoppedEarly.Store(true)
+			return
+		}
 		c := &Case{R: r, Group: group, Index: i, Rand: NewRandFor(r.p.Seed, group, i)}
 		fn(c)
 	}
@@ -424,6 +435,9 @@ func (r *Report) snapshot() part {
 	}
 	sort.Slice(p.Distinct, func(i, j int) bool { return p.Distinct[i] < p.Distinct[j] })
 	p.WallS = time.Since(r.start).Seconds()
+	if r.stoppedEarly.Load() {
+		p.Extra["stopped_early"] = fmt.Sprintf("remaining cases skipped after %d violations", p.NViolations)
+	}
 	return p
 }
 
